@@ -352,6 +352,9 @@ def strategy_verdict(opts, relpath, src_mtime, dst_mtime):
     return None
 
 
+LAST_ASKED = []   # file names the file strategy of the last parallel real call was consulted about
+
+
 def real_options(opts):
     """Fresh strategy objects for one call of the real code."""
     from signac import sync as S
@@ -367,6 +370,23 @@ def real_options(opts):
     elif s == "custom":
         chosen = set(opts["custom_paths"])
         kw["strategy"] = lambda src, dst, fn: fn in chosen
+    del LAST_ASKED[:]
+    if opts.get("parallel") and "strategy" in kw:
+        # in the thread pool: record what the file strategy is asked about, and let every worker but the first
+        # pause at its first question, so that one job finishes while another is in the middle of its files
+        import threading
+        import time
+        inner, seen = kw["strategy"], []
+
+        def asking(src, dst, fn, _inner=inner):
+            t = threading.get_ident()
+            if t not in seen:
+                seen.append(t)
+                if len(seen) > 1:
+                    time.sleep(0.03)
+            LAST_ASKED.append(fn)
+            return _inner(src, dst, fn)
+        kw["strategy"] = asking
     ds = opts["doc_sync"]
     if ds == "bykey_fn":
         keys = set(opts["keys"])
@@ -736,6 +756,7 @@ def observe(case, ctx, second_run=True, twin_opts=None):
             o.init_sha = init_sp_sha(ctx, case["pair"][1])
         o.line1, o.cids1 = model_line(case, o.s0, o.d0, o.order, o.init_sha)
         o.kind1, o.payload1, o.stdout1 = run_real(case, sd, dd)
+        o.asked1 = list(LAST_ASKED)
         o.s1, o.d1 = snapshot(sd), snapshot(dd)
         o.impl1 = outcome_text(o.kind1, o.payload1) + ";" + render_tree(o.d1, o.cids1) + ";log-ok"
         o.second = False
@@ -1375,6 +1396,12 @@ def oracle_c15(o):
     fails += undocumented_outcome(o)
     if o.s1 != o.s0:
         fails.append(("source project changed by the sync", None))
+    internal = {FN_SP} | ({FN_DOC} if opts["doc_sync"] != "copy" else set())
+    asked_internal = sorted({fn for fn in getattr(o, "asked1", []) if os.path.basename(fn) in internal
+                             and os.sep not in fn})
+    if asked_internal:
+        fails.append(("the file strategy was consulted about %r: the state point and the document are never "
+                      "synchronised like regular files (parallel run)" % asked_internal, None))
     if opts["dry_run"]:
         # bytes and structure of everything; mtimes of everything but document files (a failed
         # item assignment on a synced list re-saves the unchanged document: dependency behaviour)
